@@ -227,6 +227,10 @@ FIXED_TYPESET = {
         {"name": "Svc", "kind": "service", "fields": [F("uint8")], "resp": [F("uint8", "[<=4]")]},
     ],
 }
+# single-type sets of unusual shape: EVERY type header has to carry the guard, also one with nothing in it
+EMPTY_TYPESET = {"id": "only-empty", "types": [{"name": "Nothing", "kind": "struct", "fields": []}]}
+PADDING_TYPESET = {"id": "only-padding", "types": [{"name": "Pad", "kind": "struct", "fields": [F("void8")]}]}
+EMPTYSVC_TYPESET = {"id": "only-empty-service", "types": [{"name": "Ping", "kind": "service", "fields": [], "resp": []}]}
 FLOAT_TYPESET = {
     "id": "floats",
     "types": [
@@ -281,7 +285,7 @@ def render_dsdl(ts: dict) -> typing.Dict[str, str]:
             lines = ["@union"] if union else []
             for i, f in enumerate(fields):
                 ty = f["t"][1:] + ".1.0" if f["t"].startswith("@") else f["t"]
-                lines.append(f"{ty}{f['a']} f{i}")
+                lines.append(ty if ty.startswith("void") else f"{ty}{f['a']} f{i}")
             lines.append(f"@extent {extent} * 8" if extent else "@sealed")
             return "\n".join(lines) + "\n"
 
@@ -1046,6 +1050,7 @@ def run(ctx: core.Ctx):
         gen_ts = [lab.add_typeset(t) for t in draw_cases(typeset_strategy(False), 2 if q else 6, ctx.seed * 1000003 + 11)]
         gen_fl = [lab.add_typeset(t) for t in draw_cases(typeset_strategy(True), 1 if q else 3, ctx.seed * 1000003 + 12)]
         ctx.extra["typesets"] = {tid: render_dsdl(ts) for tid, ts in lab.typesets.items()}
+        odd = [lab.add_typeset(t) for t in (EMPTY_TYPESET, PADDING_TYPESET, EMPTYSVC_TYPESET)]
         rot = gen_ts + [floats] + gen_fl
 
         # ---------------------------------------------------------------- pairs
@@ -1075,6 +1080,12 @@ def run(ctx: core.Ctx):
                 p["typesets"] = [fixed] + ([rot[(i // 2) % len(rot)]] if i % 2 == 0 else [])
             else:
                 p["typesets"] = [fixed] + [rot[(i + j) % len(rot)] for j in range(3)]
+        # the unusual single-type sets: every single-option difference from the defaults and the identical pairs
+        k_odd = 0
+        for p in pairs:
+            if (p["cls"] == "single" and p.get("context") == "defaults") or p["cls"] == "identical":
+                p["typesets"] = p["typesets"] + [odd[k_odd % len(odd)]]
+                k_odd += 1
         ctx.extra["pairs_enumerated"] = {
             f"{l}.{c}": sum(1 for p in pairs if p["lang"] == l and p["cls"] == c) for l in ("c", "cpp") for c in sorted({p["cls"] for p in pairs})
         }
